@@ -2,7 +2,10 @@
 
      FractionLookupTable::{new, lookup}     quantity.rs 633-707
      Number::new_approx                     quantity.rs 735-778
+     Number::try_approx                     quantity.rs 783-791
      Number::value                          quantity.rs 105-116
+     FractionsConfigHelper::define          convert/units_file.rs 167-179
+     ScaledQuantity::try_fraction           convert/mod.rs 607-626 (after the unit's configuration was found)
      round_float, Display for Number        quantity.rs 208-240
 
    f64 is modelled by [f64 := Fin q | NaN | PInf | NInf] with q : Q exact; IEEE rounding is not
@@ -206,6 +209,86 @@ Definition new_approx (c : cfg) (value accuracy : f64) (max_den max_whole : N)
     | _ => Done None            (* !value.is_finite() *)
     end
   | _ => Panic site_assert_accuracy   (* NaN and the infinities are not in 0.0..=1.0 *)
+  end.
+
+(* ---------- Number::try_approx (quantity.rs 783-791) ---------- *)
+
+(* `match Self::new_approx(self.value(), accuracy, max_den, max_whole)`: what is approximated is
+   [value self] - for a number that already is a stored fraction that is whole + err + num/den, the
+   recorded error included.  `Some(f) => { *self = f; true }`, `None => false`.
+   Result: `self` after the call and the returned flag. *)
+Definition try_approx (c : cfg) (x : number) (accuracy : f64) (max_den max_whole : N)
+  : outcome (number * bool) :=
+  obind (new_approx c (value x) accuracy max_den max_whole) (fun r =>
+  match r with
+  | Some f => Done (f, true)
+  | None => Done (x, false)
+  end).
+
+(* the parameters of one call: (accuracy, max_den, max_whole) *)
+Definition params : Type := (f64 * N * N)%type.
+
+(* successive calls on the same `&mut Number`: the number after each call with the returned flag *)
+Fixpoint try_approx_seq (c : cfg) (x : number) (ps : list params) : outcome (list (number * bool)) :=
+  match ps with
+  | [] => Done []
+  | (acc, md, mw) :: r =>
+      obind (try_approx c x acc md mw) (fun s =>
+      obind (try_approx_seq c (fst s) r) (fun tl => Done (s :: tl)))
+  end.
+
+(* ---------- FractionsConfig, FractionsConfigHelper::define ---------- *)
+
+(* FractionsConfig (convert/mod.rs 228-233); accuracy is an f32, a subset of [f64] *)
+Record frac_config : Type :=
+  { fc_enabled : bool; fc_accuracy : f64; fc_max_den : N; fc_max_whole : N }.
+
+(* FractionsConfigHelper (units_file.rs 140-149): one fully merged layer of a units file *)
+Record frac_helper : Type :=
+  { fh_enabled : option bool; fh_accuracy : option f64; fh_max_den : option N; fh_max_whole : option N }.
+
+(* f32::clamp: `if self < min { min } else if self > max { max } else { self }`, NaN stays NaN *)
+Definition clamp_f (lo hi : Q) (x : f64) : f64 :=
+  match x with
+  | Fin q => if Qlt_bool q lo then Fin lo else if Qlt_bool hi q then Fin hi else Fin q
+  | NaN => NaN
+  | PInf => Fin hi
+  | NInf => Fin lo
+  end.
+
+(* Ord::clamp on u8 *)
+Definition clamp_n (lo hi x : N) : N :=
+  if (x <? lo)%N then lo else if (hi <? x)%N then hi else x.
+
+Definition opt_or {A : Type} (o : option A) (d : A) : A := match o with Some a => a | None => d end.
+
+(* FractionsConfigHelper::define (units_file.rs 167-179); FractionsConfig::default has enabled = false
+   (convert/mod.rs 238), the other defaults and the clamp bounds are regenerated constants *)
+Definition define (h : frac_helper) : frac_config :=
+  {| fc_enabled := opt_or (fh_enabled h) false;
+     fc_accuracy := clamp_f clamp_acc_lo clamp_acc_hi (opt_or (fh_accuracy h) (Fin default_accuracy));
+     fc_max_den := clamp_n clamp_den_lo clamp_den_hi (opt_or (fh_max_den h) default_max_den);
+     fc_max_whole := opt_or (fh_max_whole h) default_max_whole |}.
+
+(* ---------- ScaledQuantity::try_fraction (convert/mod.rs 607-626) ---------- *)
+
+(* Value (quantity.rs): Number | Range { start, end } | Text (the text itself plays no role) *)
+Inductive qvalue : Type := VNumber (n : number) | VRange (s e : number) | VText.
+
+(* the part after `let cfg = converter.fractions_config(&unit)` (finding the unit and its configuration
+   layers is Model/Convert.v's subject): `if !cfg.enabled { return false }`, then try_approx on the
+   number, or on the ends of a range with the short-circuit `start.try_approx(..) || end.try_approx(..)`.
+   Result: the value after the call and the returned flag. *)
+Definition try_fraction (c : cfg) (fc : frac_config) (v : qvalue) : outcome (qvalue * bool) :=
+  if negb (fc_enabled fc) then Done (v, false) else
+  let try := fun n => try_approx c n (fc_accuracy fc) (fc_max_den fc) (fc_max_whole fc) in
+  match v with
+  | VNumber n => obind (try n) (fun r => Done (VNumber (fst r), snd r))
+  | VRange s e =>
+      obind (try s) (fun rs =>
+      if snd rs then Done (VRange (fst rs) e, true)
+      else obind (try e) (fun re => Done (VRange (fst rs) (fst re), snd re)))
+  | VText => Done (v, false)
   end.
 
 (* ---------- Display (quantity.rs 208-240) ---------- *)
